@@ -164,7 +164,7 @@ def faithful_run(tier='quick'):
             continue
         name, lab, f = hit
         res['failures'].append(dict(fn=name, kind='generated lemma not provable: ' + d['message'], label='faithful.%s.%s' % (name, lab),
-                                    props=['C01', 'C08', 'C16'] + (PP_TREE_PROPS if pp_production(f) else []),
+                                    props=['C01', 'C08', 'C16', 'C15'] + (PP_TREE_PROPS if pp_production(f) else []),
                                     repo='%s:%d' % (f.file, f.line), spec='build/grammar_vcs.rs:%d' % prim[0]['line_start'],
                                     snippet=lines[prim[0]['line_start'] - 1].strip()[:300], notes=[]))
     if res['failures'] and res['status'] == 'ok':
